@@ -963,6 +963,9 @@ from mlmverif.selfcheck import B, OK  # noqa: E402
 
 _F = 'chainables/tree.py'
 VARIANTS = [
+    OK('child-fetched-through-a-local', 'chainables/tree.py',
+       "          result[key] = self._set_by_path(\n              result.get(key, NullMap()), Key(rest_keys), value, in_place\n          )",
+       "          child = result.get(key, NullMap())\n          result[key] = self._set_by_path(\n              child, Key(rest_keys), value, in_place\n          )"),
     B('none-parent-taken-for-a-missing-key', 'chainables/tree.py',
       "          result[key] = self._set_by_path(\n              result.get(key, NullMap()), Key(rest_keys), value, in_place\n          )",
       "          if (child := result.get(key)) is None:\n            child = NullMap()\n          result[key] = self._set_by_path(\n              child, Key(rest_keys), value, in_place\n          )", 'R-C18-20'),
